@@ -59,9 +59,12 @@ def check_equal(run):
     rc_all = 0
     import concurrent.futures as cf
 
+    muts = []
+
     def one(a):
         rc, lines = H.harness(a)
         m, f, acc, st, ok, err = H.model(lines)
+        muts.extend(l for l in lines if l.startswith("MUT\t"))
         return rc, m, st, ok, err, lines[:2]
     with cf.ThreadPoolExecutor(max_workers=min(6, C.NPROC)) as ex:
         for rc, m, st, ok, err, head in ex.map(one, sets):
@@ -74,6 +77,17 @@ def check_equal(run):
                     samples.append({"a": t[1], "b": t[2], "impl_equal": t[3]})
     if rc_all != 0 or stats.get("eq", 0) == 0:
         run.violation("harness-failed", {"rc": rc_all}, "C13: the Config.Equal differential did not run", True)
+    stats["equal_calls_that_mutated_an_argument"] = len(muts)
+    if muts:
+        t = min(muts, key=len).split("\t")
+        run.violation("equal-mutates-argument:" + H.h8(t[1] + t[2]),
+                      {"a": t[1], "b": t[2], "a_after": t[3], "b_after": t[4], "pairs_affected": len(muts),
+                       "theorem": "correspondence A: the model's config_equal is a pure function; Config.Equal changed one of "
+                                  "its arguments (an active configuration is an argument of every Reload's Equal while a live mux "
+                                  "may point into it)",
+                       "how": "build/bin/http -family equal ...: the MUT line"},
+                      "Config.Equal modified its arguments on %d pairs, e.g. a=%s b=%s became a=%s b=%s" % (
+                          len(muts), t[1], t[2], t[3], t[4]), True)
     for l in mism[:100]:
         t = l.split("\t")
         head = t[0].split()
@@ -141,7 +155,8 @@ def run(run):
     cov["evaluations"] += eq_stats.get("eq", 0)
     cov["distinct_nontrivial"] += eq_stats.get("eq_true", 0)
     cov["equal_differential"] = {"pairs": eq_stats.get("eq", 0), "equal_true": eq_stats.get("eq_true", 0),
-                                 "duplicate_free_pairs": eq_stats.get("eq_nodup", 0), "mismatches": eq_stats.get("mismatches", 0)}
+                                 "duplicate_free_pairs": eq_stats.get("eq_nodup", 0), "mismatches": eq_stats.get("mismatches", 0),
+                                 "calls_that_mutated_an_argument": eq_stats.get("equal_calls_that_mutated_an_argument", 0)}
     cov["samples"] += eq_samples[:3]
     cov["traces_validated_against_impl"] += eq_stats.get("eq", 0)
     cov["exhaustive"] = False
@@ -154,6 +169,8 @@ def run(run):
                         "steps: that they do return is assumed (C14 bounds Shutdown)",
                         "a callback error wrapping the exported ErrOldConfig takes the unchanged path (code and model): that failure "
                         "is not visible (C13_errold_is_unchanged)"]
+    # violations that carry a failing input are printed first (stable)
+    run.violations.sort(key=lambda v: v[2])
 
 
 def replay(path):
